@@ -834,19 +834,19 @@ func (f *Frame) loopOfBlock(b *ssa.BasicBlock) *loopInfo {
 // mapUseAt: `loop N mapuse L` - the key yielded by this Next satisfies P_L if
 // the all-keys fact of L holds for the ranged map.
 func (f *Frame) mapUseAt(x *ssa.Next, reach string, st *State) {
-	if f.fc == nil || x.IsString {
+	if f.cfc() == nil || x.IsString {
 		return
 	}
 	li := f.loopOfBlock(x.Block())
 	if li == nil {
 		return
 	}
-	label, ok := f.fc.MapUse[li.ord]
+	label, ok := f.cfc().MapUse[li.ord]
 	if !ok {
 		return
 	}
 	var cl *Clause
-	for _, c := range f.fc.MapAll {
+	for _, c := range f.cfc().MapAll {
 		if c.Label == label {
 			cl = c
 		}
